@@ -21,7 +21,7 @@ pub struct Cfg {
     succ_thr: u32,
     /// None = builder defaults for both thresholds (success 1, failure 2)
     defaults: bool,
-    strategy: u8, // 0 first available, 1 round robin, 2 prefer healthy, 3 custom (last usable), 4 custom returning None
+    strategy: u8, // 0 first available, 1 round robin, 2 prefer healthy, 3 custom (last usable), 4 custom returning None, 5 random
     ticks: usize,
     script: Script,
     /// with_timeout(Duration::MAX): checks never time out ("slow" results simply arrive late)
@@ -55,7 +55,7 @@ pub fn gen(rng: &mut Prng) -> Cfg {
         }
         script.push(v);
     }
-    Cfg { n, fail_thr: if defaults { 2 } else { rng.range(1, 4) as u32 }, succ_thr: if defaults { 1 } else { rng.range(1, 4) as u32 }, defaults, strategy: rng.below(5) as u8, ticks, script, huge_timeout: rng.chance(0.06) }
+    Cfg { n, fail_thr: if defaults { 2 } else { rng.range(1, 4) as u32 }, succ_thr: if defaults { 1 } else { rng.range(1, 4) as u32 }, defaults, strategy: rng.below(6) as u8, ticks, script, huge_timeout: rng.chance(0.06) }
 }
 
 fn st(s: HealthStatus) -> u8 {
@@ -127,6 +127,7 @@ pub fn run(cfg: &Cfg, seed: u64) -> (Arc<World>, Vec<Obs>, Vec<usize>) {
             1 => SelectionStrategy::RoundRobin,
             2 => SelectionStrategy::PreferHealthy,
             3 => SelectionStrategy::Custom(Arc::new(|s: &[HealthStatus]| s.iter().rposition(|x| x.is_usable()))),
+            5 => SelectionStrategy::Random,
             _ => SelectionStrategy::Custom(Arc::new(|s: &[HealthStatus]| if s.len() % 2 == 0 { None } else { Some(0) })),
         });
         let wrapper = b.build();
@@ -207,7 +208,7 @@ pub fn judge(cfg: &Cfg, obs: &[Obs]) -> Report {
     let mut s = vec![0u32; cfg.n];
     let mut flips = 0u64;
     let mut timeouts = 0u64;
-    let strat = ["first", "round-robin", "prefer-healthy", "custom-last", "custom-none"][cfg.strategy as usize];
+    let strat = ["first", "round-robin", "prefer-healthy", "custom-last", "custom-none", "random"][cfg.strategy as usize];
     'outer: for o in obs {
         for r in 0..cfg.n {
             let res = cfg.script[r][o.tick];
@@ -275,7 +276,7 @@ pub fn judge(cfg: &Cfg, obs: &[Obs]) -> Report {
                     got.push(*r);
                 }
                 None => {
-                    if !elig.is_empty() && cfg.strategy <= 2 {
+                    if !elig.is_empty() && (cfg.strategy <= 2 || cfg.strategy == 5) {
                         rep.violate(format!("C18:{strat}:{name}-returned-none"), format!("tick {}: {name} returned nothing although {:?} qualify", o.tick, elig));
                     }
                 }
